@@ -555,3 +555,485 @@ Proof.
     apply render_sim.
     constructor; [split; reflexivity|]. constructor; [split; [reflexivity|exact Hab]|constructor].
 Qed.
+
+(* ------------------------------------------------------------------ explicit shape of the default HTML page *)
+Definition H1 : text := [60; 104; 116; 109; 108; 62; 10; 32; 60; 104; 101; 97; 100; 62; 10; 32; 32; 60; 116; 105; 116; 108; 101; 62].
+Definition H2 : text := [60; 47; 116; 105; 116; 108; 101; 62; 10; 32; 60; 47; 104; 101; 97; 100; 62; 10; 32; 60; 98; 111; 100; 121; 62; 10; 32; 32; 60; 104; 49; 62].
+Definition H3 : text := [60; 47; 104; 49; 62; 10; 32; 32].
+Definition H4 : text := [10; 32; 60; 47; 98; 111; 100; 121; 62; 10; 60; 47; 104; 116; 109; 108; 62].
+
+Lemma html_template_tokens :
+  tokenise html_template =
+  map TChar H1 ++ [TRef k_status] ++ map TChar H2 ++ [TRef k_status] ++ map TChar H3 ++ [TRef k_body] ++ map TChar H4.
+Proof. vm_compute. reflexivity. Qed.
+
+Lemma default_body_tokens :
+  tokenise default_body_template =
+  [TRef s_k_expl; TRef s_k_br; TRef s_k_br; TChar 10; TRef s_k_detail; TChar 10; TRef s_k_html_comment; TChar 10].
+Proof. vm_compute. reflexivity. Qed.
+
+Lemma render_chars l ts e : render (map TChar l ++ ts) e = rmap (app l) (render ts e).
+Proof.
+  induction l as [|x r IH]; simpl; [destruct (render ts e); reflexivity|].
+  rewrite IH. destruct (render ts e); reflexivity.
+Qed.
+
+Definition default_body (b : branch) (c : cls) (i : input) : text :=
+  esc_apply (b_esc b) (expl_of c i) ++ b_br b ++ b_br b ++ [10] ++
+  esc_apply (b_esc b) (or_empty (i_detail i)) ++ [10] ++ html_comment_of b i ++ [10].
+
+Lemma default_body_render b c i :
+  substitute default_body_template (base_args b c i) = Ok (default_body b c i).
+Proof.
+  unfold substitute. rewrite default_body_tokens. unfold default_body.
+  cbn [render base_args lookup text_eqb s_k_br s_k_expl s_k_detail s_k_comment s_k_html_comment N.eqb Pos.eqb andb rmap].
+  reflexivity.
+Qed.
+
+Lemma html_page_render st body :
+  substitute html_template [(k_status, st); (k_body, body)] = Ok (H1 ++ st ++ H2 ++ st ++ H3 ++ body ++ H4).
+Proof.
+  unfold substitute. rewrite html_template_tokens.
+  rewrite render_chars. cbn [app render lookup text_eqb k_status k_body N.eqb Pos.eqb andb].
+  rewrite render_chars. cbn [app render lookup text_eqb k_status k_body N.eqb Pos.eqb andb].
+  rewrite render_chars. cbn [app render lookup text_eqb k_status k_body N.eqb Pos.eqb andb].
+  rewrite <- (app_nil_r (map TChar H4)). rewrite render_chars. cbn [render rmap]. rewrite app_nil_r.
+  reflexivity.
+Qed.
+
+(* for a class that uses HTTPException's own body template, and no body_template= argument *)
+Lemma html_default_shape c i :
+  c_default_tmpl c = true -> c_tmpl c = default_body_template -> i_tmpl i = None ->
+  page_text spec_policy bh c i =
+  Ok (H1 ++ status_of c ++ H2 ++ status_of c ++ H3 ++
+      (html_escape (expl_of c i) ++ s_br_html ++ s_br_html ++ [10] ++
+       html_escape (or_empty (i_detail i)) ++ [10] ++
+       (if is_nil (or_empty (i_comment i)) then [] else s_cpre ++ html_escape (or_empty (i_comment i)) ++ s_csuf) ++ [10])
+      ++ H4).
+Proof.
+  intros Hd Ht Hn. rewrite page_text_unfold. unfold tmpl_of, is_custom. rewrite Hn, Hd, Ht. cbn [negb].
+  rewrite build_args_spec, default_body_render. cbn [rbind]. unfold page_of. cbn [bh b_page].
+  rewrite html_page_render. reflexivity.
+Qed.
+
+Lemma classes_default_ok :
+  forallb (fun c => implb (c_default_tmpl c) (text_eqb (c_tmpl c) default_body_template)) classes = true.
+Proof. vm_compute. reflexivity. Qed.
+
+Lemma find_cls_In n l c : find_cls n l = Some c -> In c l /\ c_name c = n.
+Proof.
+  induction l as [|x r IH]; simpl; [discriminate|].
+  destruct (text_eqb n (c_name x)) eqn:E.
+  - intros H; injection H as <-. apply text_eqb_eq in E. split; [left; reflexivity|symmetry; exact E].
+  - intros H. destruct (IH H). split; [right; assumption|assumption].
+Qed.
+
+Lemma default_tmpl_text n c : find_cls n classes = Some c -> c_default_tmpl c = true -> c_tmpl c = default_body_template.
+Proof.
+  intros Hf Hd. apply find_cls_In in Hf as [Hin _].
+  pose proof classes_default_ok as H. rewrite forallb_forall in H. specialize (H c Hin).
+  rewrite Hd in H. simpl in H. apply text_eqb_eq. exact H.
+Qed.
+
+Lemma fallback_ok : fallback_type = t_plain /\ offers = [t_html; t_json].
+Proof. split; reflexivity. Qed.
+
+Lemma spec_html_unfold i c :
+  find_cls (i_cls i) classes = Some c -> c_empty c = false -> chosen_type i = t_html ->
+  spec i = Some (rbind (page_text spec_policy bh c i) (fun page =>
+                 rmap (mkOutput (status_of c) t_html cs_utf8) (utf8_bytes page))).
+Proof.
+  intros Hf He Hc. unfold spec, prepare. rewrite Hf, He, Hc. reflexivity.
+Qed.
+
+(* the whole response of a default-template class in the HTML form *)
+Lemma html_body_shape i c :
+  find_cls (i_cls i) classes = Some c -> c_empty c = false -> c_default_tmpl c = true -> i_tmpl i = None ->
+  chosen_type i = t_html ->
+  spec i = Some (rmap (mkOutput (status_of c) t_html cs_utf8)
+    (utf8_bytes
+      (H1 ++ status_of c ++ H2 ++ status_of c ++ H3 ++
+       (html_escape (expl_of c i) ++ s_br_html ++ s_br_html ++ [10] ++
+        html_escape (or_empty (i_detail i)) ++ [10] ++
+        (if is_nil (or_empty (i_comment i)) then [] else s_cpre ++ html_escape (or_empty (i_comment i)) ++ s_csuf) ++ [10])
+       ++ H4))).
+Proof.
+  intros Hf He Hd Hn Hc. rewrite (spec_html_unfold i c Hf He Hc).
+  rewrite (html_default_shape c i Hd (default_tmpl_text _ c Hf Hd) Hn). reflexivity.
+Qed.
+
+(* ------------------------------------------------------------------ the default 404 page *)
+Definition n_notfound : text := [72; 84; 84; 80; 78; 111; 116; 70; 111; 117; 110; 100].
+Lemma router_passes_path_info : notfound_detail_attr = [112; 97; 116; 104; 95; 105; 110; 102; 111].
+Proof. reflexivity. Qed.
+
+Lemma not_found_page_safe : exists st pre post,
+  (forall path i,
+     i_cls i = n_notfound -> i_detail i = Some path -> i_comment i = None -> i_expl i = None ->
+     i_tmpl i = None -> chosen_type i = t_html ->
+     spec i = Some (rmap (mkOutput st t_html cs_utf8) (utf8_bytes (pre ++ html_escape path ++ post))))
+  /\ (forall path ch, In ch (html_escape path) -> is_markup ch = false /\ ch <? 128 = true).
+Proof.
+  destruct (find_cls n_notfound classes) as [c|] eqn:Hf; [|vm_compute in Hf; discriminate].
+  assert (He : c_empty c = false) by (vm_compute in Hf; injection Hf as <-; reflexivity).
+  assert (Hd : c_default_tmpl c = true) by (vm_compute in Hf; injection Hf as <-; reflexivity).
+  exists (status_of c).
+  exists (H1 ++ status_of c ++ H2 ++ status_of c ++ H3 ++ html_escape (c_expl c) ++ s_br_html ++ s_br_html ++ [10]).
+  exists ([10; 10] ++ H4).
+  split; [|intros path ch; apply escape_no_markup].
+  intros path i Hn Hdet Hcm Hex Ht Hc.
+  rewrite <- Hn in Hf. rewrite (html_body_shape i c Hf He Hd Ht Hc).
+  unfold expl_of. rewrite Hdet, Hcm, Hex. cbn [or_empty is_nil].
+  do 3 f_equal. rewrite <- !app_assoc. reflexivity.
+Qed.
+
+(* ------------------------------------------------------------------ content type *)
+Lemma content_type_matches i c o :
+  Forall (fun t => In t offers) (i_offers i) ->
+  find_cls (i_cls i) classes = Some c -> c_empty c = false ->
+  spec i = Some (Ok o) ->
+  o_ctype o = spec_type i /\
+  (o_ctype o = t_html /\ o_charset o = cs_utf8 \/ o_ctype o = t_json /\ o_charset o = [] \/
+   o_ctype o = t_plain /\ o_charset o = cs_utf8).
+Proof.
+  intros Hoff Hf He. unfold spec, prepare. rewrite Hf, He. unfold chosen_type, spec_type.
+  destruct (i_offers i) as [|t r].
+  - simpl. intros H. injection H as H. apply rbind_ok in H as [page [_ H]]. apply rmap_ok in H as [bytes [_ ->]].
+    simpl. split; [reflexivity|right; right; split; reflexivity].
+  - inversion Hoff as [|? ? Ht _]; subst. simpl in Ht. destruct Ht as [<-|[<-|[]]].
+    + simpl. intros H. injection H as H. apply rbind_ok in H as [page [_ H]]. apply rmap_ok in H as [bytes [_ ->]].
+      simpl. split; [reflexivity|left; split; reflexivity].
+    + simpl. intros H. injection H as H. apply rbind_ok in H as [page [_ H]]. apply rmap_ok in H as [bytes [_ ->]].
+      simpl. split; [reflexivity|right; left; split; reflexivity].
+Qed.
+
+(* ------------------------------------------------------------------ json.dumps output reads back *)
+Lemma unhex1_hex1 d : d < 16 -> unhex1 (hex1 d) = Some d.
+Proof.
+  intros H. unfold unhex1, hex1. destruct (d <? 10) eqn:E.
+  - replace ((48 <=? 48 + d) && (48 + d <=? 57)) with true by lia. f_equal; lia.
+  - replace ((48 <=? 87 + d) && (87 + d <=? 57)) with false by lia.
+    replace ((97 <=? 87 + d) && (87 + d <=? 102)) with true by lia. f_equal; lia.
+Qed.
+
+Lemma read_u_uesc c T : c < 65536 -> read_u (uesc c ++ T) = Some (c, T).
+Proof.
+  intros H. unfold uesc, read_u. cbn [app]. cbn [N.eqb Pos.eqb andb].
+  unfold unhex4.
+  rewrite !unhex1_hex1 by (apply N.mod_upper_bound; lia).
+  f_equal. f_equal. lia.
+Qed.
+
+Lemma read_step f c r :
+  json_read_chars (S f) (c :: r) =
+  let put c r := match json_read_chars f r with Some (t, r') => Some (c :: t, r') | None => None end in
+  if c =? 34 then Some ([], r)
+  else if c =? 92 then
+    match r with
+    | [] => None
+    | e :: r1 =>
+        if e =? 117 then
+          match read_u (c :: r) with
+          | None => None
+          | Some (hi, r2) =>
+              if is_hi hi then
+                match read_u r2 with
+                | Some (lo, r3) =>
+                    if is_lo lo then put (65536 + (hi - 55296) * 1024 + (lo - 56320)) r3
+                    else put hi r2
+                | None => put hi r2
+                end
+              else put hi r2
+          end
+        else match simple_escape e with Some x => put x r1 | None => None end
+    end
+  else if c <? 32 then None
+  else put c r.
+Proof. reflexivity. Qed.
+
+Definition put_res (c : N) (o : option (text * text)) : option (text * text) :=
+  match o with Some (t, r') => Some (c :: t, r') | None => None end.
+
+Lemma read_char f c T : valid_scalar c = true ->
+  json_read_chars (S f) (json_char c ++ T) = put_res c (json_read_chars f T).
+Proof.
+  intros Hv. unfold valid_scalar in Hv. unfold json_char.
+  destruct (c =? 34) eqn:E1. { assert (c = 34) by lia; subst. reflexivity. }
+  destruct (c =? 92) eqn:E2. { assert (c = 92) by lia; subst. reflexivity. }
+  destruct (c =? 10) eqn:E3. { assert (c = 10) by lia; subst. reflexivity. }
+  destruct (c =? 13) eqn:E4. { assert (c = 13) by lia; subst. reflexivity. }
+  destruct (c =? 9) eqn:E5. { assert (c = 9) by lia; subst. reflexivity. }
+  destruct (c =? 8) eqn:E6. { assert (c = 8) by lia; subst. reflexivity. }
+  destruct (c =? 12) eqn:E7. { assert (c = 12) by lia; subst. reflexivity. }
+  destruct ((32 <=? c) && (c <=? 126)) eqn:E8.
+  { cbn [app]. rewrite read_step. cbv zeta. rewrite E1, E2.
+    replace (c <? 32) with false by lia. reflexivity. }
+  destruct (c <? 65536) eqn:E9.
+  { assert (Hc : c < 65536) by lia.
+    unfold uesc at 1. cbn [app]. rewrite read_step. cbv zeta. cbn [N.eqb Pos.eqb].
+    change (92 :: 117 :: hex1 ((c / 4096) mod 16) :: hex1 ((c / 256) mod 16) :: hex1 ((c / 16) mod 16) :: hex1 (c mod 16) :: T)
+      with (uesc c ++ T).
+    rewrite (read_u_uesc c T Hc).
+    replace (is_hi c) with false by (unfold is_hi; lia). reflexivity. }
+  set (n := c - 65536).
+  assert (Hn : n < 1048576) by (unfold n; lia).
+  set (hi := 55296 + (n / 1024) mod 1024). set (lo := 56320 + n mod 1024).
+  assert (Hhi : hi < 65536) by (unfold hi; lia).
+  assert (Hlo : lo < 65536) by (unfold lo; lia).
+  rewrite <- app_assoc.
+  unfold uesc at 1. cbn [app]. rewrite read_step. cbv zeta. cbn [N.eqb Pos.eqb].
+  change (92 :: 117 :: hex1 ((hi / 4096) mod 16) :: hex1 ((hi / 256) mod 16) :: hex1 ((hi / 16) mod 16) :: hex1 (hi mod 16) :: uesc lo ++ T)
+    with (uesc hi ++ uesc lo ++ T).
+  rewrite (read_u_uesc hi _ Hhi).
+  replace (is_hi hi) with true by (unfold is_hi, hi; lia).
+  rewrite (read_u_uesc lo _ Hlo).
+  replace (is_lo lo) with true by (unfold is_lo, lo; lia).
+  replace (65536 + (hi - 55296) * 1024 + (lo - 56320)) with c by (unfold hi, lo, n; lia).
+  reflexivity.
+Qed.
+
+Lemma read_chars_string s : forall f T, forallb valid_scalar s = true -> (length s < f)%nat ->
+  json_read_chars f (flat_map json_char s ++ 34 :: T) = Some (s, T).
+Proof.
+  induction s as [|c r IH]; intros f T Hv Hf.
+  - destruct f as [|f]; [inversion Hf|]. reflexivity.
+  - destruct f as [|f]; [inversion Hf|]. cbn [forallb] in Hv. apply andb_true_iff in Hv as [Hc Hr].
+    cbn [flat_map]. rewrite <- app_assoc. rewrite (read_char f c _ Hc).
+    rewrite (IH f T Hr) by (simpl in Hf; lia). reflexivity.
+Qed.
+
+Lemma json_char_nonempty c : (1 <= length (json_char c))%nat.
+Proof.
+  unfold json_char.
+  repeat match goal with |- context [if ?b then _ else _] => destruct b; [simpl; lia|] end.
+  rewrite app_length. simpl. lia.
+Qed.
+
+Lemma json_chars_length s : (length s <= length (flat_map json_char s))%nat.
+Proof.
+  induction s as [|c r IH]; simpl; [lia|]. rewrite app_length. pose proof (json_char_nonempty c). lia.
+Qed.
+
+Lemma read_string s T : forallb valid_scalar s = true ->
+  json_read_string (json_string s ++ T) = Some (s, T).
+Proof.
+  intros Hv. unfold json_string, json_read_string. cbn [app].
+  rewrite <- app_assoc. cbn [app]. apply read_chars_string; [exact Hv|].
+  rewrite app_length. simpl. pose proof (json_chars_length s). lia.
+Qed.
+
+Lemma skip_ws_quote r : skip_ws (34 :: r) = 34 :: r.
+Proof. reflexivity. Qed.
+
+Lemma read_member f k v T : forallb valid_scalar k = true -> forallb valid_scalar v = true ->
+  json_read_members (S f) (json_member (k, v) ++ T) =
+  match skip_ws T with
+  | 44 :: r3 => match json_read_members f r3 with Some l => Some ((k, v) :: l) | None => None end
+  | 125 :: r3 => if is_nil (skip_ws r3) then Some [(k, v)] else None
+  | _ => None
+  end.
+Proof.
+  intros Hk Hv. unfold json_member. cbn [fst snd json_read_members].
+  assert (E1 : skip_ws ((json_string k ++ [58; 32] ++ json_string v) ++ T)
+               = json_string k ++ ([58; 32] ++ json_string v ++ T)).
+  { rewrite <- !app_assoc. reflexivity. }
+  rewrite E1. rewrite (read_string k _ Hk). cbn [app skip_ws N.eqb Pos.eqb orb].
+  change (skip_ws (json_string v ++ T)) with (json_string v ++ T).
+  rewrite (read_string v T Hv). reflexivity.
+Qed.
+
+Lemma read_member_sp f k v T : forallb valid_scalar k = true -> forallb valid_scalar v = true ->
+  json_read_members (S f) (32 :: json_member (k, v) ++ T) = json_read_members (S f) (json_member (k, v) ++ T).
+Proof. reflexivity. Qed.
+
+Lemma json_object3_norm k1 k2 k3 a b c :
+  json_object [(k1, a); (k2, b); (k3, c)] =
+  123 :: json_member (k1, a) ++ (44 :: 32 :: json_member (k2, b) ++ (44 :: 32 :: json_member (k3, c) ++ [125])).
+Proof.
+  unfold json_object, json_members. cbn [app].
+  repeat (rewrite <- app_assoc || rewrite <- app_comm_cons). reflexivity.
+Qed.
+
+Lemma members3 f k1 k2 k3 a b c :
+  forallb valid_scalar k1 = true -> forallb valid_scalar k2 = true -> forallb valid_scalar k3 = true ->
+  forallb valid_scalar a = true -> forallb valid_scalar b = true -> forallb valid_scalar c = true ->
+  json_read_members (S (S (S f)))
+    (json_member (k1, a) ++ (44 :: 32 :: json_member (k2, b) ++ (44 :: 32 :: json_member (k3, c) ++ [125])))
+  = Some [(k1, a); (k2, b); (k3, c)].
+Proof.
+  intros H1 H2 H3 Ha Hb Hc.
+  rewrite (read_member _ k1 a _ H1 Ha). cbn [skip_ws N.eqb Pos.eqb orb].
+  rewrite (read_member_sp _ k2 b _ H2 Hb), (read_member _ k2 b _ H2 Hb). cbn [skip_ws N.eqb Pos.eqb orb].
+  rewrite (read_member_sp _ k3 c _ H3 Hc), (read_member _ k3 c _ H3 Hc). cbn [skip_ws N.eqb Pos.eqb orb is_nil].
+  reflexivity.
+Qed.
+
+Lemma json_object3_roundtrip k1 k2 k3 a b c :
+  forallb valid_scalar k1 = true -> forallb valid_scalar k2 = true -> forallb valid_scalar k3 = true ->
+  forallb valid_scalar a = true -> forallb valid_scalar b = true -> forallb valid_scalar c = true ->
+  json_read_object (json_object [(k1, a); (k2, b); (k3, c)]) = Some [(k1, a); (k2, b); (k3, c)].
+Proof.
+  intros H1 H2 H3 Ha Hb Hc.
+  rewrite json_object3_norm. unfold json_read_object. cbn [skip_ws N.eqb Pos.eqb orb].
+  match goal with |- json_read_members (S (length ?r)) _ = _ =>
+    assert (Hl : (2 <= length r)%nat) by (rewrite !app_length; cbn [length]; rewrite !app_length; cbn [length]; lia);
+    destruct (length r) as [|[|f]]; try lia
+  end.
+  apply members3; assumption.
+Qed.
+
+(* the JSON text is ASCII, hence its UTF-8 encoding is itself *)
+Definition ascii (s : text) : Prop := Forall (fun x => x < 128) s.
+Lemma ascii_app a b : ascii a -> ascii b -> ascii (a ++ b).
+Proof. unfold ascii. intros; apply Forall_app; split; assumption. Qed.
+
+Lemma hex1_ascii d : d < 16 -> hex1 d < 128.
+Proof. unfold hex1. destruct (d <? 10) eqn:E; lia. Qed.
+
+Lemma uesc_ascii c : ascii (uesc c).
+Proof.
+  unfold uesc, ascii. repeat constructor; try lia; apply hex1_ascii; apply N.mod_upper_bound; lia.
+Qed.
+
+Lemma json_char_ascii c : ascii (json_char c).
+Proof.
+  unfold json_char.
+  repeat match goal with |- context [if ?b then _ else _] => destruct b eqn:?; [unfold ascii; repeat constructor; lia|] end.
+  destruct (c <? 65536); [apply uesc_ascii|apply ascii_app; apply uesc_ascii].
+Qed.
+
+Lemma json_string_ascii s : ascii (json_string s).
+Proof.
+  unfold json_string. change (34 :: flat_map json_char s ++ [34]) with ([34] ++ flat_map json_char s ++ [34]).
+  apply ascii_app; [repeat constructor; lia|]. apply ascii_app; [|repeat constructor; lia].
+  induction s as [|c r IH]; simpl; [constructor|]. apply ascii_app; [apply json_char_ascii|exact IH].
+Qed.
+
+Lemma json_member_ascii kv : ascii (json_member kv).
+Proof.
+  unfold json_member. apply ascii_app; [apply json_string_ascii|].
+  apply ascii_app; [repeat constructor; lia|apply json_string_ascii].
+Qed.
+
+Lemma json_object3_ascii k1 k2 k3 a b c : ascii (json_object [(k1, a); (k2, b); (k3, c)]).
+Proof.
+  rewrite json_object3_norm.
+  change (123 :: json_member (k1, a) ++ 44 :: 32 :: json_member (k2, b) ++ 44 :: 32 :: json_member (k3, c) ++ [125])
+    with ([123] ++ json_member (k1, a) ++ [44; 32] ++ json_member (k2, b) ++ [44; 32] ++ json_member (k3, c) ++ [125]).
+  repeat (apply ascii_app; [first [apply json_member_ascii | repeat constructor; lia]|]).
+  repeat constructor; lia.
+Qed.
+
+Lemma ascii_valid s : ascii s -> forallb valid_scalar s = true.
+Proof.
+  induction 1 as [|x r Hx _ IH]; [reflexivity|]. cbn [forallb]. rewrite IH, andb_true_r.
+  unfold valid_scalar. lia.
+Qed.
+
+Lemma encode_ascii s : ascii s -> Utf8.encode s = s.
+Proof.
+  induction 1 as [|x r Hx _ IH]; [reflexivity|]. unfold Utf8.encode in *. cbn [flat_map]. rewrite IH.
+  unfold encode1. replace (x <? 128) with true by lia. reflexivity.
+Qed.
+
+Lemma classes_text_ok :
+  forallb (fun c => forallb valid_scalar (status_of c) && forallb valid_scalar (c_title c)) classes = true.
+Proof. vm_compute. reflexivity. Qed.
+
+Lemma valid_keys : forallb valid_scalar k_message = true /\ forallb valid_scalar k_code = true /\ forallb valid_scalar k_title = true.
+Proof. repeat split; reflexivity. Qed.
+
+(* In the JSON form the body (ASCII bytes) is a JSON object which the reference reader reads
+   back to message / code / title, message being the rendered plain text, character for
+   character (texts of Unicode scalar values, i.e. no lone surrogates). *)
+Lemma json_verbatim i c body :
+  find_cls (i_cls i) classes = Some c -> c_empty c = false -> chosen_type i = t_json ->
+  substitute (tmpl_of c i) (build_args spec_policy bj c i (is_custom c i)) = Ok body ->
+  forallb valid_scalar body = true ->
+  exists bytes,
+    spec i = Some (Ok (mkOutput (status_of c) t_json [] bytes)) /\ ascii bytes /\
+    json_read_object bytes = Some [(k_message, body); (k_code, status_of c); (k_title, c_title c)].
+Proof.
+  intros Hf He Hc Hb Hv.
+  exists (json_object [(k_message, body); (k_code, status_of c); (k_title, c_title c)]).
+  pose proof (json_object3_ascii k_message k_code k_title body (status_of c) (c_title c)) as Ha.
+  split; [|split; [exact Ha|]].
+  - unfold spec, prepare. rewrite Hf, He, Hc.
+    change (pick_branch t_json (p_branches spec_policy)) with (Some bj).
+    cbv iota beta. rewrite page_text_unfold, Hb. cbn [rbind]. unfold bj at 1. rewrite json_page_eq. cbn [rbind].
+    unfold utf8_bytes. rewrite (ascii_valid _ Ha), (encode_ascii _ Ha). reflexivity.
+  - destruct (find_cls_In _ _ _ Hf) as [Hin _].
+    pose proof classes_text_ok as Hok. rewrite forallb_forall in Hok. specialize (Hok c Hin).
+    apply andb_true_iff in Hok as [Hs Ht]. destruct valid_keys as (K1 & K2 & K3).
+    apply json_object3_roundtrip; assumption.
+Qed.
+
+(* ... and for the classes with the default body template the message is the explanation,
+   three newlines, the detail verbatim, newline, the comment verbatim, newline *)
+Lemma json_default_message c i :
+  c_default_tmpl c = true -> c_tmpl c = default_body_template -> i_tmpl i = None ->
+  substitute (tmpl_of c i) (build_args spec_policy bj c i (is_custom c i)) =
+  Ok (expl_of c i ++ [10; 10; 10] ++ or_empty (i_detail i) ++ [10] ++ or_empty (i_comment i) ++ [10]).
+Proof.
+  intros Hd Ht Hn. unfold tmpl_of, is_custom. rewrite Hn, Hd, Ht. cbn [negb].
+  rewrite build_args_spec, default_body_render. unfold default_body, html_comment_of. cbn [bj b_esc b_br b_cpre b_csuf b_comment_escaped esc_apply maybe_esc].
+  destruct (or_empty (i_comment i)); [reflexivity|]. cbn [is_nil app]. rewrite app_nil_r. reflexivity.
+Qed.
+
+(* ------------------------------------------------------------------ non-vacuity *)
+Definition ex_env : list (text * text) :=
+  [([82; 69; 81; 85; 69; 83; 84; 95; 77; 69; 84; 72; 79; 68], [71; 69; 84])].
+(* HTTPNotFound(detail='<a>${br}$$') under Accept: text/html *)
+Definition ex_input (offers : list text) : input :=
+  mkInput n_notfound (Some [60; 97; 62; 36; 123; 98; 114; 125; 36; 36]) None None [] [] ex_env None offers.
+
+(* a class like HTTPNotFound, written out so that the examples do not depend on the class table *)
+Definition ex_cls : cls := mkCls n_notfound [52; 48; 52] [78; 70] [69; 46] default_body_template true false false.
+
+Example ex_html_renders :
+  page_text spec_policy bh ex_cls (ex_input [t_html]) =
+  Ok (H1 ++ [52; 48; 52; 32; 78; 70] ++ H2 ++ [52; 48; 52; 32; 78; 70] ++ H3 ++
+      [69; 46] ++ s_br_html ++ s_br_html ++ [10] ++
+      (* the detail appears as &lt;a&gt;${br}$$ *)
+      [38; 108; 116; 59; 97; 38; 103; 116; 59; 36; 123; 98; 114; 125; 36; 36] ++ [10; 10] ++ H4).
+Proof. vm_compute. reflexivity. Qed.
+
+Example ex_json_reads_back :
+  exists page, page_text spec_policy bj ex_cls (ex_input [t_json]) = Ok page /\
+    json_read_object page =
+    Some [(k_message, [69; 46; 10; 10; 10] ++ [60; 97; 62; 36; 123; 98; 114; 125; 36; 36] ++ [10; 10]);
+          (k_code, [52; 48; 52; 32; 78; 70]); (k_title, [78; 70])].
+Proof. eexists. split; vm_compute; reflexivity. Qed.
+
+Example ex_model_runs :
+  exists o, model (ex_input [t_html]) = Some (Ok o) /\ o_ctype o = t_html.
+Proof. eexists. split; vm_compute; reflexivity. Qed.
+
+Example ex_same_shape_satisfiable :
+  same_shape (ex_input [t_html]) (with_detail (ex_input [t_html]) (Some [60; 98; 62]))
+  /\ exists p, page_text spec_policy bh ex_cls (ex_input [t_html]) = Ok p.
+Proof. split; [repeat split|eexists; vm_compute; reflexivity]. Qed.
+
+(* a custom template naming an environ key: substitution fails alike (KeyError) whatever the texts *)
+Example ex_keyerror :
+  substitute [36; 120] [] = KeyErr /\ substitute [36] [] = ValErr /\ substitute [36; 36; 120] [] = Ok [36; 120].
+Proof. repeat split. Qed.
+
+(* ------------------------------------------------------------------ markup characters survive UTF-8 encoding unchanged
+   (so the statements about the page text carry over to the body bytes) *)
+Lemma mk_encode1 c : mk (encode1 c) = mk [c].
+Proof.
+  unfold encode1.
+  destruct (c <? 128) eqn:E1; [reflexivity|].
+  assert (Hc : is_markup c = false) by (unfold is_markup; lia).
+  unfold mk. cbn [filter]. rewrite Hc.
+  destruct (c <? 2048) eqn:E2; [|destruct (c <? 65536) eqn:E3]; cbn [filter];
+    repeat match goal with |- context [is_markup ?x] => replace (is_markup x) with false by (unfold is_markup; lia) end;
+    reflexivity.
+Qed.
+
+Lemma mk_encode s : mk (Utf8.encode s) = mk s.
+Proof.
+  induction s as [|c r IH]; [reflexivity|].
+  unfold Utf8.encode in *. cbn [flat_map]. rewrite mk_app, IH, mk_encode1. reflexivity.
+Qed.
